@@ -263,7 +263,7 @@ func (nb *nativeBuild) replay(pkg, harness string, params []int, vec []uint64) r
 	if err != nil {
 		return replayOutcome{Status: "error", Detail: err.Error()}
 	}
-	cmd := exec.Command(bin, "-test.run", "^TestVerifReplay$", "-test.count=1", "-test.timeout=60s")
+	cmd := exec.Command(bin, "-test.run", "^TestVerifReplay$", "-test.count=1", "-test.timeout=20s")
 	cmd.Dir = nb.dir
 	cmd.Env = append(os.Environ(), "VERIF_HARNESS="+harness, "VERIF_PARAMS="+intsString(params), "VERIF_VECTOR="+vecString(vec))
 	done := make(chan struct{})
@@ -271,7 +271,7 @@ func (nb *nativeBuild) replay(pkg, harness string, params []int, vec []uint64) r
 	go func() { out, err = cmd.CombinedOutput(); close(done) }()
 	select {
 	case <-done:
-	case <-time.After(90 * time.Second):
+	case <-time.After(40 * time.Second):
 		cmd.Process.Kill()
 		<-done
 		return replayOutcome{Status: "timeout", Detail: "native replay exceeded 90s (hang)"}
@@ -574,7 +574,7 @@ func runCheck(spec *CheckSpec, tier string) int {
 	os.MkdirAll(filepath.Join(verifDir, "replays", spec.ID), 0755)
 	for _, rv := range raws {
 		key := rv.job.Harness + "|" + rv.v.Kind + "|" + rv.v.Msg + "|" + rv.v.Class
-		if seen[key] >= 2 {
+		if seen[key] >= 2 || len(conf) >= 16 {
 			continue
 		}
 		seen[key]++
